@@ -322,6 +322,65 @@ def r13_6_7_8(ctx):
     ctx.end()
 
 
+def r13_9(ctx):
+    """Two-way consistency after a move in a nested product (concrete small model): parent P, not yet placed, with two
+    children placed on their own at OLD; P's task becomes READY and P moves to NEW.  Afterwards every component must
+    report NEW, be listed by NEW and by nobody else."""
+    ctx.begin("R13.9", "after a move of a nested assembly every component is listed exactly where it reports to be", floor=1)
+    f = alloc_func(ctx)
+    srt = permutation_sorters(ctx)
+
+    def hook(I, call, st, fr):
+        if isinstance(call.func, ast.Name) and srt.get(call.func.id) and call.args:
+            return I.eval(call.args[0], st, fr)
+        return None
+    placing = {"set_placed_workplace", "set_placed_component", "remove_placed_component"}
+    for between in (False, True):
+        T, P, C1, C2, X = Obj("T", TASK), Obj("P", COMPONENT), Obj("C1", COMPONENT), Obj("C2", COMPONENT), Obj("X", COMPONENT)
+        OLD, NEW = Obj("OLD", WORKPLACE), Obj("NEW", WORKPLACE)
+        old_list = [C1, X, C2] if between else [C1, C2]
+        st0 = State()
+        st0.heap.update({
+            ("T", "state"): E(TS, "READY"), ("T", "target_component"): P, ("T", "auto_task"): Const(True), ("T", "name"): Const("t"),
+            ("T", "allocated_workplace_list"): ListV([NEW]), ("T", "allocated_worker_list"): ListV([]),
+            ("P", "ID"): Const("P"), ("C1", "ID"): Const("C1"), ("C2", "ID"): Const("C2"), ("X", "ID"): Const("X"),
+            ("P", "targeted_task_list"): ListV([T]), ("P", "child_component_list"): ListV([C1, C2]), ("P", "parent_component_list"): ListV([]),
+            ("P", "placed_workplace"): Const(None),
+            ("C1", "child_component_list"): ListV([]), ("C2", "child_component_list"): ListV([]), ("X", "child_component_list"): ListV([]),
+            ("C1", "parent_component_list"): ListV([P]), ("C2", "parent_component_list"): ListV([P]), ("X", "parent_component_list"): ListV([]),
+            ("C1", "placed_workplace"): OLD, ("C2", "placed_workplace"): OLD, ("X", "placed_workplace"): OLD,
+            ("OLD", "ID"): Const("OLD"), ("NEW", "ID"): Const("NEW"), ("NEW", "input_workplace_list"): ListV([]),
+            ("OLD", "placed_component_list"): ListV(old_list), ("NEW", "placed_component_list"): ListV([]),
+        })
+        st0.facts["<P>.is_ready()"] = (True, frozenset())
+        st0.facts["<NEW>.can_put(<P>)"] = (True, frozenset())
+        I = mk_interp(ctx, collections={"self.workflow.task_list": [T], "self.organization.team_list": [], "self.organization.workplace_list": [OLD, NEW]},
+                      call_hook=hook, distinct_objs=True, havoc_on_call=False, inline=lambda call, callee, depth: callee.name in placing, max_depth=5)
+        outs = I.run_function(f, bind={"__defaults__": True}, st=st0)
+        moved = 0
+        for st, ex in outs:
+            pw = st.heap.get(("P", "placed_workplace"))
+            if not (isinstance(pw, Obj) and pw.name == "NEW"):
+                continue
+            moved += 1
+            oldl, newl = st.heap.get(("OLD", "placed_component_list")), st.heap.get(("NEW", "placed_component_list"))
+            ctx.instance(construct(f, f"nested-move-between={between}"), sample={"OLD": repr(oldl), "NEW": repr(newl)})
+            if not (isinstance(oldl, ListV) and isinstance(newl, ListV)):
+                raise AnalysisError(f"R13.9: workplace contents not determined after the move ({oldl!r} / {newl!r})")
+            for c in (P, C1, C2):
+                loc_ = st.heap.get((c.name, "placed_workplace"))
+                in_new = any(isinstance(x, Obj) and x.name == c.name for x in newl.items)
+                in_old = any(isinstance(x, Obj) and x.name == c.name for x in oldl.items)
+                if not (isinstance(loc_, Obj) and loc_.name == "NEW") or not in_new or in_old:
+                    ctx.violation(construct(f, "nested-move-consistency"), f.loc(),
+                                  f"parent P (children C1, C2 placed on their own at OLD{' with another component between them' if between else ', neighbours in the list'}) moves to NEW: "
+                                  f"afterwards {c.name} reports {loc_!r}, listed by NEW={in_new}, still listed by OLD={in_old} -- a workplace must list a component exactly when the component "
+                                  f"reports being placed there")
+                    break
+        ctx.require(moved >= 1, "the small nested model does not move the parent (positive control)")
+    ctx.end()
+
+
 def run(ctx):
     r13_1(ctx)
     r13_2(ctx)
@@ -329,3 +388,4 @@ def run(ctx):
     r13_4(ctx)
     r13_5(ctx)
     r13_6_7_8(ctx)
+    r13_9(ctx)
